@@ -4,7 +4,7 @@
    directly from the contents; the model's check loops are not used), or, in a version that
    parses integers only, the new content spells a level otherwise than as an integer literal. *)
 From Verif Require Import Lib.Bytes Json.Ast Json.Parse Auth.GoJson Auth.Types Auth.Versions Auth.Abs
-     Auth.Decide Auth.Model Auth.PLSpec.
+     Auth.Decide Auth.Model Auth.PLSpec Auth.AllowedSpec.
 From Verif Require Import Run.RunC07.
 Open Scope N_scope.
 
@@ -34,23 +34,26 @@ Definition prop_no_escalation (args : list bytes) : bytes :=
       if negb (bytes_eqb impl (bs "ok")) then bs "ok" else
       with_case args'
         (fun so ver e al =>
-           match flags_of_version ver with
+           (* the version's switches come from the hand-written specification matrix
+              (AllowedSpec.spec_flags_of / spec_int_levels), never from the generated table *)
+           match spec_flags_of ver with
            | None => bs "FAIL unknown version"
            | Some f =>
+               if match kind_of (ev_type e) with KPowerLevels => false | _ => true end then bs "ok"
+               else if spec_int_levels ver &&
+                       negb (match content_of e with
+                             | CoObj o => level_members_integer o
+                             | _ => true end)
+               then bs "FAIL non-integer level accepted in an integer-only version"
+               else
                let a := abs so f e al in
-               match ai_kind a, ai_create a, ai_new_pl a with
-               | KPowerLevels, Some c, Some new =>
+               match ai_create a, ai_new_pl a with
+               | Some c, Some new =>
                    let L := user_power_level f c (ai_pl_present a) (ai_pl a) (ai_sender a) in
                    if negb (no_escalation_b f c L (ai_sender a) (ai_pl a) new)
                    then bs "FAIL escalation: accepted change violates clauses 1-5"
-                   else if vf_int_levels f &&
-                           negb (match content_of e with
-                                 | CoObj o => level_members_integer o
-                                 | _ => true end)
-                   then bs "FAIL non-integer level accepted in an integer-only version"
                    else bs "ok"
-               | KPowerLevels, _, _ => bs "FAIL accepted power-levels event without create or content"
-               | _, _, _ => bs "ok"
+               | _, _ => bs "FAIL accepted power-levels event without create or content"
                end
            end)
         (bs "badargs")
